@@ -361,11 +361,12 @@ class LazySeries:
 
   def __array__(self, dtype=None, copy=None):
     import numpy as np  # pylint: disable=g-import-not-at-top
-    try:
-      getattr(self._target, self._quantity)
-      self.reads += 1
-    except Exception:  # pylint: disable=broad-except
-      pass
+    if self._target is not None:
+      try:
+        getattr(self._target, self._quantity)
+        self.reads += 1
+      except Exception:  # pylint: disable=broad-except
+        pass
     return np.array(self._vals, dtype=dtype)
 
 
@@ -478,10 +479,14 @@ def execute(desc):
 
   def fresh(y, x, pk=None):
     pk = pk or par_kwargs
-    key = (np.asarray(y).tobytes(), str(np.asarray(y).dtype),
-           None if x is None else np.asarray(x).tobytes(),
-           None if x is None else str(np.asarray(x).dtype),
-           tuple(sorted(pk.items())))
+    def fp(a):
+      if a is None:
+        return None
+      a = np.asarray(a)
+      if a.dtype.kind == 'O':       # tobytes() of objects is their addresses
+        return repr(core.canon(a)), 'O'
+      return a.tobytes(), str(a.dtype)
+    key = (fp(y), fp(x), tuple(sorted(pk.items())))
     mods = ref_sets.pop(key, None)
     if mods is None:
       mods = core.reference_modules('tbrmmdesignparameters',
@@ -489,12 +494,28 @@ def execute(desc):
       if len(ref_sets) >= 6:
         ref_sets.pop(next(iter(ref_sets)))
     ref_sets[key] = mods
+    cur_set[0] = mods
     rpar, rdiag = mods
-    f = rdiag.TBRMMDiagnostics(
-        np.array(y), rpar.TBRMMDesignParameters(**pk))
-    if x is not None:
-      f.x = np.array(x)
+    with mods.active():
+      f = rdiag.TBRMMDiagnostics(
+          np.array(y), rpar.TBRMMDesignParameters(**pk))
+      if x is not None:
+        f.x = np.array(x)
     return f
+
+  cur_set = [None]
+
+  def as_reference():
+    """By-name lookups (pickle of own instances, late imports) made on the
+    reference's behalf must find the module set of the LAST fresh() object."""
+    return cur_set[0].active()
+
+  def ref_container(vals, how):
+    if how == 'lazy':
+      # the same container protocol on both sides (what a setter accepts is
+      # not C08's business); only the nested read is the object's alone
+      return LazySeries(vals, None, None)
+    return _container(np, vals, how)
 
   def same_series(a, b):
     if a is None or b is None:
@@ -608,12 +629,13 @@ def execute(desc):
       # the model: what a fresh object with the same prior series does
       f = fresh(t.y, t.x, t.pk)
       try:
-        if which == 'x' and exact is not None:
-          f.x = list(exact)
-        elif which == 'x':
-          f.x = _container(np, vals, op.get('as', 'list'))
-        else:
-          f.y = _container(np, vals, op.get('as', 'list'))
+        with as_reference():
+          if which == 'x' and exact is not None:
+            f.x = list(exact)
+          elif which == 'x':
+            f.x = ref_container(vals, op.get('as', 'list'))
+          else:
+            f.y = ref_container(vals, op.get('as', 'list'))
         f_raised = None
       except Exception as e:  # pylint: disable=broad-except
         f_raised = e
@@ -661,6 +683,13 @@ def execute(desc):
     elif kind == 'iadd':
       which = op['which']
       cur = t.x if which == 'x' else t.y
+      if (t.alias_x if which == 'x' else t.alias_y) and cur is not None:
+        # the caller scribbled on the array it had passed in: an object that
+        # aliases it now holds (and adds to) the scribbled series
+        held = obj.x if which == 'x' else obj.y
+        if held is not None and not same_series(held, cur):
+          probe('object_aliases_caller_array')
+          cur = np.array(held)
       d = op['d']
       if cur is not None and cur.dtype.kind in 'iub':
         d = int(d) if int(d) != 0 else 1     # keep integer series integer
@@ -738,10 +767,11 @@ def execute(desc):
         raised = e
       f = fresh(t.y, t.x, t.pk)
       try:
-        if which == 'x':
-          f.x = _bad_value(np, op['how'], n)
-        else:
-          f.y = _bad_value(np, op['how'], n)
+        with as_reference():
+          if which == 'x':
+            f.x = _bad_value(np, op['how'], n)
+          else:
+            f.y = _bad_value(np, op['how'], n)
         f_raised = None
       except Exception as e:  # pylint: disable=broad-except
         f_raised = e
@@ -817,7 +847,8 @@ def execute(desc):
           probe('object_aliases_caller_array')
           cx = np.array(rx)
       f = fresh(cy, cx, t.pk)
-      f_ok, f_val = _do_read(f, q, args)
+      with as_reference():
+        f_ok, f_val = _do_read(f, q, args)
       exp = core.canon(f_val)
       stats['compared'] += 1
       if t.stale_opportunity:
